@@ -90,6 +90,11 @@ def likely(repo_dir):
             # CBMC cannot compare two 7143-row arrays under one symbolic index (> 30 min), and a 7143-arm match is beyond
             # goto-instrument (> 20 GB): the CLDR side is emitted in chunks of CHUNK rows, one small static per chunk
             out.append('pub const EXPECTED_%s_LEN: usize = %d;' % (name, len(rows)))
+            # ... and once in full as a `const`, compared with the real static by rustc's compile-time evaluation (quick tier)
+            out.append('pub const EXPECTED_%s_FULL: [%s; %d] = [' % (name, types[name], len(rows)))
+            for key, val in rows:
+                out.append('    (%s, (%s, %s, %s)),' % (', '.join(str(x) for x in key), opt(val[0]), opt(val[1]), opt(val[2])))
+            out.append('];')
             out.append('pub const CHUNK: usize = %d;' % CHUNK)
             for c in range(0, len(rows), CHUNK):
                 part = rows[c:c + CHUNK]
